@@ -1,39 +1,65 @@
 ------------------------------ MODULE FormatCmd ------------------------------
-(* `mos format` (mos/src/commands/format.rs) as a state machine over the files of a project:                  *)
-(*     ParseAll ; for every file of the parse tree: Truncate f ; Write f                                       *)
-(* parse_or_err fails before any file is opened, so a parse error anywhere leaves every file untouched.        *)
-(* Files are indices 1..N; content is abstract: "src" (as found), "" (truncated), "fmt" (= format(file)).      *)
-(* MC_FormatCmd checks the invariants for N <= 3 and every subset of files with a parse error; FormatTrace     *)
-(* binds CmdPost to observed runs of the real binary (before / after / expected text of every file).          *)
+(* `mos format` (mos/src/commands/format.rs, mos/src/main.rs) as a state machine over the files on disk:               *)
+(*     CheckConfig ; ParseAll ; for every file of the parse tree: Format f ; Truncate f ; Write f                       *)
+(* parse_or_err fails before any file is opened, so a parse error anywhere leaves every file untouched.                *)
+(* Files 1..N are the project (entry + imports, below the project root); file 0 is a `main.asm` in a subdirectory that  *)
+(* is NOT part of the project (present iff decoy).  The command is started in the root or in that subdirectory.         *)
+(* Content is abstract: "src" (as found), "" (truncated), "fmt" (= format(file)).                                       *)
+(* Pinned readings (Deviations), each with its repaired counterpart:                                                    *)
+(*   "FormatEntryFromCwd"   the entry is looked up relative to the current directory instead of the project root       *)
+(*   "FormatWidthPanics"    a margin / indent beyond the formatter's width limit makes format() panic                   *)
+(*   "WriteBeforeParseAll"  hypothetical, only to show UntouchedOnError is not vacuous                                  *)
+(* Tolerated = the deviations the invariants accept (the findings still open).                                          *)
 EXTENDS Naturals, Sequences, FiniteSets, FormatCmdProp
 
-CONSTANTS N,            \* number of files in the project (entry + imports)
-          Deviations    \* {} or {"WriteBeforeParseAll"}: a hypothetical bug used to show the invariant is not vacuous
-VARIABLES disk,         \* [1..N -> {"src", "", "fmt"}]
-          bad,          \* set of files with a parse error (chosen initially)
-          pc,           \* "parse" | "files" | "done" | "failed"
+CONSTANTS N, Deviations, Tolerated
+VARIABLES disk,         \* [0..N -> {"src", "", "fmt"}]
+          bad,          \* set of project files with a parse error (chosen initially)
+          cwd,          \* "root" | "sub"
+          decoy,        \* a main.asm exists in the subdirectory
+          beyond,       \* the configuration has a margin beyond the width limit
+          pc,           \* "config" | "parse" | "files" | "done" | "failed" | "crashed"
           todo,         \* files still to rewrite (the code iterates a HashMap: any order)
-          cur           \* file opened with truncate, not yet written (0 = none)
-cvars == <<disk, bad, pc, todo, cur>>
+          cur           \* file opened with truncate, not yet written (N + 1 = none)
+cvars == <<disk, bad, cwd, decoy, beyond, pc, todo, cur>>
+Pinned(d) == d \in Deviations
 
-CInit == /\ disk = [f \in 1..N |-> "src"] /\ bad \in SUBSET (1..N) /\ pc = "parse" /\ todo = {} /\ cur = 0
+CInit == /\ disk = [f \in 0..N |-> "src"] /\ bad \in SUBSET (1..N) /\ cwd \in {"root", "sub"} /\ decoy \in BOOLEAN
+         /\ beyond \in BOOLEAN /\ pc = "config" /\ todo = {} /\ cur = N + 1
+(* repaired: a configuration the formatter cannot lay out is refused with a diagnostic before anything else happens *)
+CheckConfig == /\ pc = "config"
+               /\ pc' = IF beyond /\ ~Pinned("FormatWidthPanics") THEN "failed" ELSE "parse"
+               /\ UNCHANGED <<disk, bad, cwd, decoy, beyond, todo, cur>>
+(* which files the parse tree holds: the project - or, pinned, whatever `entry` names in the current directory *)
 ParseAll == /\ pc = "parse"
-            /\ IF bad # {} /\ "WriteBeforeParseAll" \notin Deviations
-               THEN pc' = "failed" /\ todo' = {}
-               ELSE pc' = "files" /\ todo' = 1..N \ (IF "WriteBeforeParseAll" \in Deviations THEN bad ELSE {})
-            /\ UNCHANGED <<disk, bad, cur>>
-Truncate(f) == /\ pc = "files" /\ cur = 0 /\ f \in todo
-               /\ disk' = [disk EXCEPT ![f] = ""] /\ cur' = f /\ UNCHANGED <<bad, pc, todo>>
-Write == /\ pc = "files" /\ cur # 0
-         /\ disk' = [disk EXCEPT ![cur] = "fmt"] /\ todo' = todo \ {cur} /\ cur' = 0 /\ UNCHANGED <<bad, pc>>
-Finish == /\ pc = "files" /\ cur = 0 /\ todo = {} /\ pc' = "done" /\ UNCHANGED <<disk, bad, todo, cur>>
-CNext == ParseAll \/ (\E f \in 1..N : Truncate(f)) \/ Write \/ Finish
+            /\ IF Pinned("FormatEntryFromCwd") /\ cwd = "sub"
+               THEN IF decoy THEN pc' = "files" /\ todo' = {0} ELSE pc' = "failed" /\ todo' = {}       \* "could not find 'main.asm'"
+               ELSE IF bad # {} /\ ~Pinned("WriteBeforeParseAll") THEN pc' = "failed" /\ todo' = {}
+               ELSE pc' = "files" /\ todo' = 1..N \ (IF Pinned("WriteBeforeParseAll") THEN bad ELSE {})
+            /\ UNCHANGED <<disk, bad, cwd, decoy, beyond, cur>>
+(* format(file) runs before the file is opened: a panic there touches nothing *)
+Truncate(f) == /\ pc = "files" /\ cur = N + 1 /\ f \in todo
+               /\ IF beyond /\ Pinned("FormatWidthPanics")
+                  THEN pc' = "crashed" /\ UNCHANGED <<disk, cur>>
+                  ELSE disk' = [disk EXCEPT ![f] = ""] /\ cur' = f /\ UNCHANGED pc
+               /\ UNCHANGED <<bad, cwd, decoy, beyond, todo>>
+Write == /\ pc = "files" /\ cur # N + 1
+         /\ disk' = [disk EXCEPT ![cur] = "fmt"] /\ todo' = todo \ {cur} /\ cur' = N + 1 /\ UNCHANGED <<bad, cwd, decoy, beyond, pc>>
+Finish == /\ pc = "files" /\ cur = N + 1 /\ todo = {} /\ pc' = "done" /\ UNCHANGED <<disk, bad, cwd, decoy, beyond, todo, cur>>
+CNext == CheckConfig \/ ParseAll \/ (\E f \in 0..N : Truncate(f)) \/ Write \/ Finish
 CSpec == CInit /\ [][CNext]_cvars /\ WF_cvars(CNext)
 
-(* C12, second sentence *)
 Seqd(v) == [f \in 1..N |-> v]
-UntouchedOnError == bad # {} => CmdPost(TRUE, Seqd("src"), Seqd("fmt"), disk)          \* in every reachable state
-AllRewritten == pc = "done" => CmdPost(bad # {}, Seqd("src"), Seqd("fmt"), disk)
-Terminates == <>(pc \in {"done", "failed"})
-
+Proj == [f \in 1..N |-> disk[f]]
+Outcome == IF pc = "done" THEN "ok" ELSE IF pc = "failed" THEN "error" ELSE "crash"
+(* the shapes under which a still-open defect is tolerated *)
+Excused == \/ ("FormatEntryFromCwd" \in Tolerated /\ cwd = "sub")
+           \/ ("FormatWidthPanics" \in Tolerated /\ beyond)
+           \/ "WriteBeforeParseAll" \in Tolerated
+(* C12, second sentence *)
+UntouchedOnError == (bad # {} /\ ~Excused) => Proj = Seqd("src")                              \* in every reachable state
+OnlyProjectTouched == ~Excused => disk[0] = "src"
+FinalPost == (pc \in {"done", "failed", "crashed"} /\ ~Excused) =>
+                CmdPost(Outcome, bad # {}, beyond, Seqd("src"), Seqd("fmt"), Proj, <<"src">>, <<disk[0]>>)
+Terminates == <>(pc \in {"done", "failed", "crashed"})
 =============================================================================
